@@ -341,11 +341,12 @@ def commands_shielded(prog, an, rep):
                   'executed without checking for a newer robot message',
                   path=c.describe_path(path))
         for b in stops:
-            first = _first_exit(an, f, c, b)
-            rep.check(first is not None and first[0] == 'return', R,
+            # (return, or break out of the loop: no command is read after)
+            again = tnode.id in c.reachable(start=b)
+            rep.check(not again, R,
                       f.qname + ': the robot\'s last message ends the '
-                      'command search', f.where(loop), 'meeting a robot '
-                      'comment leads to %s instead of stopping' % (first,))
+                      'command search', f.where(loop), 'after meeting a '
+                      'robot comment the search goes on to older comments')
 
 
 def defaults_copied(prog, an, rep):
